@@ -189,4 +189,6 @@ def templates(tier, seed):
     ts += [Template(tid, tmpl.pick(fn, ["verdict"]), args) for tid, fn, args in tmpl_pl.verdict_cases(tier)]
     # a stand-alone Column on a frame that holds other columns: the verdict concerns the named column, the others come back as they were
     ts += [Template(tid, tmpl.pick(fn, ["verdict", "column"]), args) for tid, fn, args in tmpl_pl.standard_cases(tier) if tid.startswith("PL/COL/")]
+    # a regex column with coercion: the matched integer columns are converted and judged as on pandas
+    ts += [Template(tid, tmpl.pick(fn, ["verdict", "channel"]), args) for tid, fn, args in tmpl_pl.regex_cases(tier) if "coerce" in tid]
     return ts
